@@ -156,6 +156,10 @@ class BoundEval:
                 return {'0'}
             if cn in ('np.ones', 'numpy.ones'):
                 return {'1'}
+            if cn in ('np.repeat', 'numpy.repeat') and e.args:
+                return self.ev(e.args[0], seen)
+            if cn in ('np.append', 'numpy.append') and len(e.args) >= 2:
+                return self.ev(e.args[0], seen) | self.ev(e.args[1], seen)
             if cn in ('np.full', 'numpy.full') and len(e.args) >= 2:
                 return self.ev(e.args[1], seen)
             if cn in ('np.full_like', 'numpy.full_like') and len(e.args) >= 2:
@@ -301,16 +305,32 @@ def run(repo):
                              {'props': ['C08', 'C01', 'C03']}))
     # consumer side: le_to_rc uses support.ub / support.lb only in `== 0`
     lr = repo.func('lp.RoConstr.le_to_rc')
+    from .common import single_defs, expand_locals
+    ldefs = single_defs(lr.node)
+    alias_vals = {id(v) for v in ldefs.values()}       # `x = support.ub`: a hoisted read, judged where x is used
     uses = []
     for n in walk_no_nested(lr.node):
-        if isinstance(n, ast.Attribute) and n.attr in ('ub', 'lb') and ntext(n.value) == 'support':
+        if isinstance(n, ast.Attribute) and n.attr in ('ub', 'lb') and ntext(n.value) == 'support' \
+                and id(n) not in alias_vals:
             uses.append(n)
     cmp_ok = 0
+    alias_reads = 0
     for n in walk_no_nested(lr.node):
-        if isinstance(n, ast.Compare) and isinstance(n.left, ast.Attribute) and n.left.attr in ('ub', 'lb') \
-                and ntext(n.left.value) == 'support' and isinstance(n.ops[0], ast.Eq) \
+        if not isinstance(n, ast.Compare):
+            continue
+        left = expand_locals(lr.node, n.left, defs=ldefs)
+        if isinstance(left, ast.Attribute) and left.attr in ('ub', 'lb') \
+                and ntext(left.value) == 'support' and isinstance(n.ops[0], ast.Eq) \
                 and isinstance(n.comparators[0], ast.Constant) and n.comparators[0].value == 0:
             cmp_ok += 1
+            if not isinstance(n.left, ast.Attribute):
+                alias_reads += 1
+    # reads through an alias are not in `uses`; any other use of the alias name is one more read
+    for k, v in ldefs.items():
+        if isinstance(v, ast.Attribute) and v.attr in ('ub', 'lb') and ntext(v.value) == 'support':
+            n_loads = sum(1 for x in walk_no_nested(lr.node) if isinstance(x, ast.Name) and x.id == k
+                          and isinstance(x.ctx, ast.Load))
+            uses += [v] * n_loads
     ok = len(uses) == cmp_ok and cmp_ok >= 2
     res.inst({'consumer': 'le_to_rc bound code', 'reads': len(uses), 'as == 0 tests': cmp_ok}, ok)
     if not ok:
@@ -331,17 +351,15 @@ def run(repo):
 def _le_to_rc_signs(lr):
     """index_pos = (support.ub == 0) -> dual_var[:, index_pos] <= 0 ; index_neg = (support.lb == 0)
     -> dual_var[:, index_neg] >= 0"""
-    masks = {}
-    for n in walk_no_nested(lr.node):
-        if isinstance(n, ast.Assign) and isinstance(n.targets[0], ast.Name) and isinstance(n.value, ast.Compare):
-            c = n.value
-            if isinstance(c.left, ast.Attribute) and ntext(c.left.value) == 'support' and c.left.attr in ('ub', 'lb'):
-                masks[n.targets[0].id] = c.left.attr
+    from .common import single_defs, expand_locals
+    ldefs = single_defs(lr.node)
     got = {}
     for n in walk_no_nested(lr.node):
-        if isinstance(n, ast.Compare) and len(n.ops) == 1 and isinstance(n.left, ast.Subscript):
-            names = {x.id for x in ast.walk(n.left) if isinstance(x, ast.Name)}
-            for m, which in masks.items():
-                if m in names and isinstance(n.comparators[0], ast.Constant) and n.comparators[0].value == 0:
-                    got[which] = type(n.ops[0]).__name__
-    return got.get('ub') == 'LtE' and got.get('lb') == 'GtE'
+        if isinstance(n, ast.Compare) and len(n.ops) == 1 and isinstance(n.left, ast.Subscript) and \
+                isinstance(n.comparators[0], ast.Constant) and n.comparators[0].value == 0:
+            # the column mask of the multiplier block, with hoisted masks / aliases expanded
+            idx = ntext(expand_locals(lr.node, n.left.slice, depth=3, defs=ldefs)).replace(' ', '')
+            for which in ('ub', 'lb'):
+                if 'support.%s==0' % which in idx:
+                    got.setdefault(which, set()).add(type(n.ops[0]).__name__)
+    return got.get('ub') == {'LtE'} and got.get('lb') == {'GtE'}
